@@ -114,3 +114,28 @@ Definition obs_eqb (a b : obs) : bool :=
 
 Definition report := @report input obs model obs_eqb spec_okb findings.
 Definition model_at := @model_at input obs model spec_okb.
+
+(* what obs_eqb compares: the observation with every chunk list replaced by
+   (joined bytes, all chunks non-empty) *)
+Definition ab := res (list N * bool) exn.
+Inductive aobs :=
+| AText (ct : ctype) (bytes : list N) (text : tres)
+| AJson (ct : ctype) (bytes : list N)
+| AChunks (bytes : list N) (text : tres)
+| ASplits (runs : list (tres * nat))
+| AReader (created : option exn) (rc : bool) (it1 : ab) (r1 : bool) (it2 : ab) (r2 : bool)
+| ASnap (copied : option exn) (same : bool) (c1 c2 : ab) (ra : bool) (orig : ab)
+| AEq (eq ne : bool)
+| AMime (r : res ctype perr).
+
+Definition alpha (o : obs) : aobs :=
+  match o with
+  | OText c b t => AText c b t
+  | OJson c b => AJson c b
+  | OChunks b t => AChunks b t
+  | OSplits r => ASplits r
+  | OReader c a i x j y => AReader c a (alpha_b i) x (alpha_b j) y
+  | OSnap c s i j a g => ASnap c s (alpha_b i) (alpha_b j) a (alpha_b g)
+  | OEq e n => AEq e n
+  | OMime r => AMime r
+  end.
